@@ -277,11 +277,21 @@ def judge(outcome: dict, pts: list[dict]) -> dict | None:
     return None
 
 
+_RS_INT = re.compile(r"(?<![\w.])\d+(?![\w.])")
+
+
+def _rs_int_literal(code: str) -> bool:
+    """Does the body of the generated Rust function use a bare integer literal (not an f64) in an expression?"""
+    body = [ln for ln in code.split("\n")[1:] if "*variables" not in ln and not ln.strip().startswith("return")]
+    text = re.sub(r"\.powi\(\d+\)", "", "\n".join(body))
+    return bool(_RS_INT.search(text))
+
+
 def classify(lang: str, sh: dict, bad: dict, code: str | None) -> str | None:
     what = bad.get("what")
     if lang == "jl" and what == "malformed" and code is not None and ("*variables" in code or "\n    k = " in code):
         return "jl/template"
-    if lang == "rs" and what == "malformed" and "`{integer}`" in str(bad.get("detail")):
+    if lang == "rs" and what == "malformed" and code is not None and _rs_int_literal(code):
         return "rs/integer-literal"
     return None
 
